@@ -95,7 +95,7 @@ def worker(args):
         # static view
         sys.path.insert(0, os.path.join(ROOT, "lib"))
         st = []
-        for part in ("counters", "handles", "adopt", "links", "cycle", "drop", "purge", "bust", "effects"):
+        for part in ("counters", "handles", "adopt", "links", "cycle", "drop", "purge", "bust", "rawptr", "effects"):
             os.makedirs("/root/scratch/mtr%d" % wid, exist_ok=True)
             p = subprocess.run([sys.executable, os.path.join(ROOT, "tools", "rs2v.py"), wt, "/root/scratch/mtr%d" % wid, part],
                                capture_output=True)
@@ -103,7 +103,7 @@ def worker(args):
                 st.append(part + ":rejected")
             else:
                 gf = {"counters": "Counters.v", "handles": "HandlesGen.v", "adopt": "AdoptGen.v", "links": "LinksGen.v",
-                      "cycle": "CycleGen.v", "drop": "DropGen.v", "purge": "PurgeGen.v", "bust": "BustGen.v", "effects": "EffectsGen.v"}[part]
+                      "cycle": "CycleGen.v", "drop": "DropGen.v", "purge": "PurgeGen.v", "bust": "BustGen.v", "rawptr": "RawPtrGen.v", "effects": "EffectsGen.v"}[part]
                 a = open("/root/scratch/mtr%d/%s" % (wid, gf)).read().split("\n")[1:]
                 b = open(os.path.join(ROOT, "gen", gf)).read().split("\n")[1:]
                 if a != b:
